@@ -16,6 +16,12 @@ theorem acct_snoc (s s' : St) (e : Elem) (hA : s'.A = s.A ++ [e]) (hO : s'.flO =
   simp only [List.append_assoc, List.singleton_append]
   exact List.perm_middle.trans (List.Perm.cons e h)
 
+theorem acct_cons (s s' : St) (e : Elem) (hA : s'.A = e :: s.A) (hO : s'.flO = s.flO) (hT : s'.flT = s.flT)
+    (hr : s'.retd = s.retd) (hi : s'.ins = e :: s.ins) (h : Acct s) : Acct s' := by
+  unfold Acct acctList at *; rw [hA, hO, hT, hr, hi]
+  simp only [List.cons_append]
+  exact List.Perm.cons e h
+
 theorem acct_popLP (s s' : St) (x : Elem) (hl : s.A.getLast? = some x) (hA : s'.A = s.A.dropLast)
     (hO0 : s.flO = none) (hO : s'.flO = some x) (hT : s'.flT = s.flT)
     (hr : s'.retd = s.retd) (hi : s'.ins = s.ins) (h : Acct s) : Acct s' := by
@@ -58,10 +64,10 @@ theorem acct_thiefRet (s s' : St) (r : Option Elem) (hA : s'.A = s.A) (hr0 : r =
     apply List.Perm.append_left
     exact List.perm_middle
 
-theorem applySto_ghost (s : St) (st : Sto) :
+theorem applySto_ghost (s : St) (st : Sto) (hst : ∀ v e, st ≠ .baseI v e) :
     (applySto s st).A = s.A ∧ (applySto s st).flO = s.flO ∧ (applySto s st).flT = s.flT ∧
     (applySto s st).retd = s.retd ∧ (applySto s st).ins = s.ins := by
-  cases st <;> simp [applySto]
+  cases st <;> simp [applySto] at hst ⊢
 
 theorem length_pos_getLast? (l : List Elem) (h : 0 < l.length) : ∃ x, l.getLast? = some x := by
   cases hl : l.getLast? with
@@ -117,6 +123,12 @@ theorem stepO_acct (s s' : St) (h : Inv s) (ha : Acct s) (hs : stepO s = some s'
     split at hs
     · simp at hs; subst hs; exact acct_same s _ rfl rfl rfl rfl rfl ha
     · simp at hs
+  case stuckL => simp at hs
+  case pt9 =>
+    simp only [releaseO, hcfg, code_unlockFence, if_true] at hs
+    split at hs
+    · simp at hs; subst hs; exact acct_same s _ rfl rfl rfl rfl rfl ha
+    · simp at hs
   all_goals (first
     | (simp at hs; subst hs; exact acct_same s _ rfl rfl rfl rfl rfl ha)
     | (split at hs <;> simp at hs <;> subst hs <;> first | exact ha | exact acct_same s _ rfl rfl rfl rfl rfl ha)
@@ -146,6 +158,11 @@ theorem stepT_acct (s s' : St) (p : Pid) (h : Inv s) (ha : Acct s) (hs : stepT s
     split at hs
     · simp at hs; subst hs; exact acct_same s _ rfl rfl rfl rfl rfl ha
     · simp at hs
+  case tp4 ok =>
+    simp only [releaseT, hcfg, code_unlockFence, if_true] at hs
+    split at hs
+    · simp at hs; subst hs; exact acct_same s _ rfl rfl rfl rfl rfl ha
+    · simp at hs
   all_goals (first
     | (simp at hs; subst hs; exact acct_same s _ rfl rfl rfl rfl rfl ha)
     | (split at hs <;> simp at hs <;> subst hs <;> first | exact ha | exact acct_same s _ rfl rfl rfl rfl rfl ha)
@@ -157,15 +174,23 @@ theorem step_acct (s : St) (l : Lbl) (s' : St) (h : Inv s) (ha : Acct s) (hs : s
   case t p => exact stepT_acct s s' p h ha hs
   case flushO =>
     split at hs
-    · simp at hs; subst hs
-      obtain ⟨a1, a2, a3, a4, a5⟩ := applySto_ghost { s with bufO := _ } _
-      exact acct_same s _ a1 a2 a3 a4 a5 ha
+    · rename_i st rest hb
+      simp at hs; subst hs
+      by_cases hst : ∃ v e, st = .baseI v e
+      · obtain ⟨v, e, rfl⟩ := hst
+        exact acct_cons s _ e rfl rfl rfl rfl rfl ha
+      · obtain ⟨a1, a2, a3, a4, a5⟩ := applySto_ghost { s with bufO := rest } st (fun v e he => hst ⟨v, e, he⟩)
+        exact acct_same s _ a1 a2 a3 a4 a5 ha
     · simp at hs
   case flushT p =>
     split at hs
-    · simp at hs; subst hs
-      obtain ⟨a1, a2, a3, a4, a5⟩ := applySto_ghost { s with bufT := _ } _
-      exact acct_same s _ a1 a2 a3 a4 a5 ha
+    · rename_i st rest hb
+      simp at hs; subst hs
+      by_cases hst : ∃ v e, st = .baseI v e
+      · obtain ⟨v, e, rfl⟩ := hst
+        exact acct_cons s _ e rfl rfl rfl rfl rfl ha
+      · obtain ⟨a1, a2, a3, a4, a5⟩ := applySto_ghost { s with bufT := upd s.bufT p rest } st (fun v e he => hst ⟨v, e, he⟩)
+        exact acct_same s _ a1 a2 a3 a4 a5 ha
     · simp at hs
   all_goals (split at hs <;> simp at hs; subst hs; exact acct_same s _ rfl rfl rfl rfl rfl ha)
 
@@ -221,12 +246,8 @@ theorem quiescent_mem (s : St) (h : Inv s) (ho : s.opc = .idle) (ht : ∀ p, s.t
     exact h.mwin k hk (by have := h.len; omega)
   · have := h.len; omega
 
-theorem owner_not_resetting (s : St) (h : Inv s) (p : Pid) (hl : s.lock = .thief p) : resetting s.opc = false := by
-  have h0 : ownerLocked s.opc = false := by
-    cases ho : ownerLocked s.opc with
-    | false => rfl
-    | true => have := h.lockO.2 ho; rw [hl] at this; cases this
-  cases hpc : s.opc <;> simp [hpc, ownerLocked, resetting] at h0 ⊢
+theorem owner_not_resetting (s : St) (h : Inv s) (p : Pid) (hl : s.lock = .thief p) : resetting s.opc = false :=
+  thief_not_resetting s h p hl
 
 /-- the fall-back branches of the three linearization points (taken when the ghost deque is empty)
     are unreachable: whenever the concrete test succeeds the abstract deque is non-empty -/
@@ -256,5 +277,55 @@ theorem ghost_branches_unreachable (s : St) (h : Inv s) :
     have e2 := h.tk2 p b hpc
     rw [hA] at hlen; simp at hlen
     omega
+
+/-- a pending inserting `base` store of the owner belongs to put just before its unlock, targets the
+    slot below the logical base, and the slot store it is ordered after (FIFO) carries the same
+    element: when it drains, the slot it exposes holds the element inserted -/
+theorem owner_baseI (s : St) (h : Inv s) (v : Int) (e : Elem) (hm : Sto.baseI v e ∈ s.bufO) :
+    s.opc = .pt9 ∧ s.lock = .owner ∧ v = s.lb - 1 ∧ viewPtr s.bufO s.ptr v = some e := by
+  cases hpc : s.opc
+  case pt9 =>
+    have hl := h.lockO.2 (by simp [hpc, ownerLocked])
+    rcases (h.pt9 hpc).2 with ⟨e', h1⟩ | ⟨e', h1, h2⟩ | h1
+    · rw [h1] at hm ⊢; simp at hm; obtain ⟨rfl, rfl⟩ := hm; simp [viewPtr, hl]
+    · rw [h1] at hm ⊢; simp at hm; obtain ⟨rfl, rfl⟩ := hm; simp [viewPtr, hl, h2]
+    · rw [h1] at hm; simp at hm
+  all_goals (exfalso; cases h; simp only [hpc, ownerLocked, carry, resetting, ownerFlight] at *)
+  all_goals grind [CarryShape, Pu2Shape, PofShape, Po6Shape, Po8Shape, Po9Shape, InsShape]
+
+/-- the same for a passer: its pending inserting `base` store belongs to trypass just before its unlock -/
+theorem thief_baseI (s : St) (h : Inv s) (p : Pid) (v : Int) (e : Elem) (hm : Sto.baseI v e ∈ s.bufT p) :
+    (∃ ok, s.tpc p = .tp4 ok) ∧ s.lock = .thief p ∧ v = s.lb - 1 ∧ viewPtr (s.bufT p) s.ptr v = some e := by
+  cases hb : s.bufT p with
+  | nil => rw [hb] at hm; simp at hm
+  | cons st rest =>
+    obtain ⟨hl, hcase⟩ := thief_buf_shape s h p st rest hb
+    rw [hb] at hm
+    rcases hcase with ⟨b, _, rfl, rfl, _⟩ | ⟨_, rfl, rfl, _⟩ | ⟨e', _, rfl, rfl⟩ |
+      ⟨e', ok, hpc, rfl, rfl⟩ | ⟨e', ok, hpc, rfl, rfl, hp⟩
+    · simp at hm
+    · simp at hm
+    · simp at hm
+    · simp at hm; obtain ⟨rfl, rfl⟩ := hm; exact ⟨⟨ok, hpc⟩, hl, rfl, by simp [viewPtr]⟩
+    · simp at hm; obtain ⟨rfl, rfl⟩ := hm; exact ⟨⟨ok, hpc⟩, hl, rfl, by simp [viewPtr, hp]⟩
+
+/-- the overflow tests of put and trypass (`base == 0`) read the logical base -/
+theorem base_tests_logical (s : St) (h : Inv s) :
+    (∀ e, s.opc = .pt1 e → viewBase s.bufO s.base = s.lb) ∧
+    (∀ p e, s.tpc p = .tp1 e → viewBase (s.bufT p) s.base = s.lb) := by
+  refine ⟨?_, ?_⟩
+  · intro e hpc
+    have hl := h.lockO.2 (by simp [hpc, ownerLocked])
+    have htr : s.tr = false := by
+      cases ht : s.tr with
+      | false => rfl
+      | true => obtain ⟨q, hq⟩ := h.trn ht; rw [hl] at hq; cases hq
+    have := h.lbase (by simp [hpc, resetting])
+    rw [(h.pt1 e hpc).1, viewBase_nil, this]; simp [htr]
+  · intro p e hpc
+    have hl := (h.lockT p).2 (by simp [hpc, thiefLocked])
+    have htr := h.trF p hl (by simp [hpc, notTrans])
+    have := h.lbase (thief_not_resetting s h p hl)
+    rw [h.tbufE p (by simp [hpc, mayBuf]), viewBase_nil, this]; simp [htr]
 
 end MythVerif.WsqTso
